@@ -270,6 +270,17 @@ def check_managed_thread(chk, prog):
             if x.get('k') == 'MemberExpr' and x.get('ref', {}).get('dk') == 'Field' and \
                     'atomic' not in (x.get('t') or '') and 'atomic' not in (x.get('ref', {}).get('dt') or ''):
                 others.append('member ' + x['ref'].get('name', '?'))
+        # ... it is a pure observer of that ONE flag: it writes nothing (an answer that is remembered makes a query
+        # before the thread has set the flag decide all later answers) and reads no second atomic
+        writes = [(c.get('callee') or '').split('::')[-1] for c in f.calls()
+                  if (c.get('callee') or '').split('::')[-1] in ('store', 'exchange', 'fetch_or', 'fetch_and', 'fetch_xor',
+                                                                 'fetch_add', 'fetch_sub', 'compare_exchange_strong',
+                                                                 'compare_exchange_weak', 'operator=', 'test_and_set',
+                                                                 'clear')]
+        flds = {x['ref'].get('name') for x in f.walk() if x.get('k') == 'MemberExpr' and x.get('ref', {}).get('dk') == 'Field'}
+        chk.check(not writes and len(flds) <= 1, 'R2d', f.name, 'isActive is a pure observer of the one flag the thread '
+                  'function sets', f.loc(), 'it %s' % ('writes (%s)' % ', '.join(sorted(set(writes))) if writes else
+                                                        'reads the members %s' % sorted(flds)))
         chk.check(not others, 'R2d', f.name, 'isActive reports the atomic flag and nothing else', f.loc(),
                   'it also consults %s: unsynchronised with join()/detach()/swap() of the thread handle, and the '
                   'answer no longer follows the running function' % ', '.join(sorted(set(others))))
